@@ -191,13 +191,22 @@ type vfValState struct {
 }
 
 type vfValueOracle struct {
-	sh     *vfShadow
-	states map[vfKeyId]*vfValState
+	sh      *vfShadow
+	states  map[vfKeyId]*vfValState
+	pending map[uint64]*vfAckPendingVal
+}
+
+type vfAckPendingVal struct {
+	prev      vfVal
+	prevKnown bool
+	opsSince  int // value operations executed on the key since the admission
 }
 
 func vfAttachValueOracle(sh *vfShadow) *vfValueOracle {
-	o := &vfValueOracle{sh: sh, states: map[vfKeyId]*vfValState{}}
+	o := &vfValueOracle{sh: sh, states: map[vfKeyId]*vfValState{}, pending: map[uint64]*vfAckPendingVal{}}
 	sh.onValue = o.onValue
+	sh.onAckAdmit = o.onAckAdmit
+	sh.onAckRollback = o.onAckRollback
 	return o
 }
 
@@ -215,6 +224,23 @@ func (o *vfValueOracle) onValue(kid vfKeyId, k *vfKeyState, r *vfReq, ev *vfEven
 	if st == nil {
 		st = &vfValState{}
 		o.states[kid] = st
+	}
+	if s.ackMark {
+		// completion of a require-ack grant: the operation was executed at
+		// admission; the reply carries the value from before it
+		p := o.pending[r.ID]
+		delete(o.pending, r.ID)
+		if p != nil && p.prevKnown {
+			obs, err := vfParseValue(ev.Data)
+			if err == nil && !vfValEqual(obs, p.prev) {
+				s.report("C15", "ack-reply-value", "", "SUCCED of the require-ack request carries %s but the value before its operation was %s: %s", obs.String(), p.prev.String(), ev.String())
+			}
+			s.stats["value_ack_replies_compared"]++
+		}
+		return
+	}
+	if _, isPending := o.pending[r.ID]; isPending {
+		return // terminal error reply of a rolled-back admission: handled by onAckRollback
 	}
 	obs, err := vfParseValue(ev.Data)
 	if err != nil {
@@ -244,6 +270,9 @@ func (o *vfValueOracle) onValue(kid vfKeyId, k *vfKeyState, r *vfReq, ev *vfEven
 		d := r.Op.Data
 		before := st.Val
 		st.Val = vfApplyValueOp(st.Val, d)
+		for _, p := range o.pending {
+			p.opsSince++
+		}
 		s.stats["value_ops_applied"]++
 		s.stats[fmt.Sprintf("value_op_%d", d.Type)]++
 		if d.Type == protocol.LOCK_DATA_COMMAND_TYPE_SHIFT && !before.Absent && int(d.Num) > len(before.B) {
@@ -265,5 +294,56 @@ func (o *vfValueOracle) onValue(kid vfKeyId, k *vfKeyState, r *vfReq, ev *vfEven
 		// the key is not held any more: whether the server still remembers the
 		// value is outside C15 ("while a key is held")
 		st.Known = false
+	}
+}
+
+
+func (o *vfValueOracle) state(kid vfKeyId) *vfValState {
+	st := o.states[kid]
+	if st == nil {
+		st = &vfValState{}
+		o.states[kid] = st
+	}
+	return st
+}
+
+// onAckAdmit: a require-ack request was admitted (hold awaiting
+// acknowledgement): its value operation is executed now, revocably.
+func (o *vfValueOracle) onAckAdmit(kid vfKeyId, r *vfReq) {
+	if r.Op.Data == nil {
+		return
+	}
+	st := o.state(kid)
+	o.pending[r.ID] = &vfAckPendingVal{prev: st.Val, prevKnown: st.Known}
+	if st.Known {
+		st.Val = vfApplyValueOp(st.Val, r.Op.Data)
+	}
+	for id, p := range o.pending {
+		if id != r.ID {
+			p.opsSince++
+		}
+	}
+	o.sh.stats["value_ack_ops_admitted"]++
+}
+
+// onAckRollback: the admission failed (error, time-out, cancellation): the
+// value change must be undone.
+func (o *vfValueOracle) onAckRollback(kid vfKeyId, r *vfReq) {
+	p := o.pending[r.ID]
+	if p == nil {
+		return
+	}
+	delete(o.pending, r.ID)
+	st := o.state(kid)
+	if p.prevKnown && p.opsSince == 0 {
+		st.Val, st.Known = p.prev, true
+		st.LastOp, st.LastSig = "rollback of "+vfJSON(r.Op.Data), ""
+		if r.Op.Data.Type == protocol.LOCK_DATA_COMMAND_TYPE_PIPELINE {
+			st.LastSig = "rollback-of-pipeline"
+		}
+		o.sh.stats["value_rollbacks_exact"]++
+	} else {
+		st.Known = false
+		o.sh.stats["value_rollbacks_resync"]++
 	}
 }
